@@ -527,3 +527,774 @@ func timeFormatByNameOrPosition(c *Ctx) {
 		c.Violation("pair:timeformats", fn.Pos(), "extractDocTime treats consts.TimeFormats by position (the first entry has its own parser, the rest go to time.Parse), but the first entry of the table is %q, not the ES format: the ES layout reaches the lenient time.Parse, which accepts spellings the strict parser rejects, and the id carries a document time the property says is the receive time", first)
 	}
 }
+
+// C17.9: LIDs are handed out in the order the filtered collector holds its documents.
+func lidsFollowCollectorOrder(c *Ctx) {
+	aw := c.Fn("(*frac.ActiveIndexer).appendWorker")
+	gi := c.Fn("frac.getIndexesOfIntercept")
+	if aw == nil || gi == nil {
+		return
+	}
+	fromCollector := true
+	n := 0
+	for _, l := range c.P.FindLifted(aw, CallSel(Callee("(*frac.Active).AppendIDs"))) {
+		n++
+		// the column itself (read after the filter), not something computed from it before
+		arg := Arg(l.Call(), 0)
+		direct := ValueIsField(arg, "frac.metaDataCollector", "IDs")
+		if p, isParam := arg.(*ssa.Parameter); isParam && !direct {
+			direct = true
+			for _, caller := range c.P.Callers(p.Parent()) {
+				for i, q := range p.Parent().Params {
+					if q == p && (i >= len(caller.Common().Args) || !ValueIsField(caller.Common().Args[i], "frac.metaDataCollector", "IDs")) {
+						direct = false
+					}
+				}
+			}
+		}
+		if !direct {
+			fromCollector = false
+		}
+	}
+	// ascending: the index that is appended to the result is the induction variable of a loop that counts up
+	ascending := false
+	for _, ap := range CallsIn(gi, Callee("builtin.append")) {
+		l := InnermostLoop(ap.(ssa.Instruction).Block())
+		if l == nil {
+			continue
+		}
+		for _, in := range l.Header.Instrs {
+			phi, ok := in.(*ssa.Phi)
+			if !ok {
+				continue
+			}
+			for _, e := range phi.Edges {
+				if bo, isBo := e.(*ssa.BinOp); isBo && bo.Op == token.ADD && bo.X == ssa.Value(phi) {
+					if k, isK := ConstInt(bo.Y); isK && k > 0 {
+						ascending = true
+					}
+				}
+				if bo, isBo := e.(*ssa.BinOp); isBo && bo.Op == token.ADD {
+					if ph2, isPhi := bo.X.(*ssa.Phi); isPhi && ph2 == phi {
+						continue
+					}
+				}
+			}
+		}
+	}
+	switch {
+	case n == 0:
+		c.Undecided("pair:lid-order:nocall", aw.Pos(), "appendWorker no longer calls Active.AppendIDs")
+	case fromCollector:
+		c.Site(aw.Pos(), "AppendIDs is given the collector's own (filtered) id column")
+	case ascending:
+		c.Site(aw.Pos(), "AppendIDs is given SetMultiple's result; getIndexesOfIntercept keeps bulk order, so the filtered collector is in the same order")
+	default:
+		c.Violation("pair:lid-order", aw.Pos(), "AppendIDs is given the ids in bulk order while getIndexesOfIntercept no longer walks the bulk front to back (the filtered collector is in another order): the k-th new document of a partly repeated bulk gets the LID of one document and the tokens of another")
+	}
+}
+
+// C20.10: a pooled fields filter does not carry the previous request's field list.
+func pooledFilterIsReset(c *Ctx) {
+	acq := c.Fn("storeapi.acquireDocFieldsFilter")
+	rel := c.Fn("storeapi.releaseDocFieldsFilter")
+	if acq == nil || rel == nil {
+		return
+	}
+	st := FieldStore("storeapi.docFieldsFilter", "filter")
+	acqAlways := true
+	stores := InstrsIn(acq, st)
+	for _, b := range acq.Blocks {
+		ret, ok := b.Instrs[len(b.Instrs)-1].(*ssa.Return)
+		if !ok {
+			continue
+		}
+		dom := false
+		for _, s := range stores {
+			if Dominates(s, ret) {
+				dom = true
+			}
+		}
+		if !dom {
+			acqAlways = false
+		}
+	}
+	relClears := false
+	for _, s := range InstrsIn(rel, st) {
+		if IsNilConst(s.(*ssa.Store).Val) {
+			for _, put := range CallsIn(rel, Callee("(*sync.Pool).Put")) {
+				if Dominates(s, put.(ssa.Instruction)) {
+					relClears = true
+				}
+			}
+		}
+	}
+	switch {
+	case acqAlways:
+		c.Site(acq.Pos(), "acquireDocFieldsFilter sets the request's filter on every path")
+	case relClears:
+		c.Site(rel.Pos(), "acquireDocFieldsFilter may leave the filter as it is; releaseDocFieldsFilter clears it before the object goes back to the pool")
+	default:
+		c.Violation("pair:pooled-filter", acq.Pos(), "acquireDocFieldsFilter can hand out a pooled object without setting its filter, and releaseDocFieldsFilter does not clear it: a fetch without a fields pipe is projected by the field list of an earlier request")
+	}
+}
+
+// C20.11: the decoder of a fields filter that is handed out exists.
+func pooledDecoderExists(c *Ctx) {
+	acq := c.Fn("storeapi.acquireDocFieldsFilter")
+	if acq == nil {
+		return
+	}
+	// acquire (re)creates the decoder exactly when the decoder is missing
+	ownTest := false
+	for _, s := range InstrsIn(acq, FieldStore("storeapi.docFieldsFilter", "decoder")) {
+		for _, f := range FactsAtInstr(s) {
+			bo, ok := f.Cond.(*ssa.BinOp)
+			if !ok || (bo.Op == token.EQL) != f.Val || !(IsNilConst(bo.X) || IsNilConst(bo.Y)) {
+				continue
+			}
+			other := bo.X
+			if IsNilConst(bo.X) {
+				other = bo.Y
+			}
+			if ValueIsField(other, "storeapi.docFieldsFilter", "decoder") {
+				ownTest = true
+			}
+		}
+		if len(FactsAtInstr(s)) == 0 {
+			ownTest = true // unconditional
+		}
+	}
+	nilled := ""
+	for _, fn := range c.P.FuncsInPkg("storeapi") {
+		for _, s := range InstrsIn(fn, FieldStore("storeapi.docFieldsFilter", "decoder")) {
+			if IsNilConst(s.(*ssa.Store).Val) {
+				nilled = FuncName(fn)
+			}
+		}
+	}
+	switch {
+	case ownTest:
+		c.Site(acq.Pos(), "acquireDocFieldsFilter creates the decoder whenever it is missing")
+	case nilled == "":
+		c.Site(acq.Pos(), "the decoder is created on first use (told by another field) and never dropped afterwards")
+	default:
+		c.Violation("pair:pooled-decoder", acq.Pos(), "acquireDocFieldsFilter decides by another field whether the decoder has to be created, and %s sets the decoder to nil: a pooled filter comes back with a buffer but no decoder, decoding fails and every document of later fetches is returned unfiltered", nilled)
+	}
+}
+
+// C19.12: every partial result is decoded into an empty aggregation map.
+func partialResultDecodedFresh(c *Ctx) {
+	fs := c.Fn("(*fracmanager.AsyncSearcher).FetchSearchResult")
+	um := c.Fn("(*seq.AggregatableSamples).UnmarshalJSON")
+	if fs == nil || um == nil {
+		return
+	}
+	// the decoder replaces the map unconditionally
+	replaces := false
+	for _, s := range InstrsIn(um, FieldStore("seq.AggregatableSamples", "SamplesByBin")) {
+		if _, isMk := s.(*ssa.Store).Val.(*ssa.MakeMap); isMk {
+			uncond := true
+			for _, f := range FactsAtInstr(s) {
+				if bo, ok := f.Cond.(*ssa.BinOp); ok && DerivesFrom(bo, func(v ssa.Value) bool { return ValueIsField(v, "seq.AggregatableSamples", "SamplesByBin") }) {
+					uncond = false
+				}
+			}
+			if uncond {
+				replaces = true
+			}
+		}
+	}
+	// or the target is a new value for every file
+	fresh := true
+	hosts := []*ssa.Function{fs}
+	for _, call := range CallsIn(fs, nil) {
+		if h := StaticCallee(call); h != nil && h.Blocks != nil && PkgOf(h) == "fracmanager" {
+			hosts = append(hosts, h)
+		}
+	}
+	n := 0
+	for _, h := range hosts {
+		for _, call := range CallsIn(h, Callee("encoding/json.Unmarshal")) {
+			tgt := Arg(call, 1)
+			if mi, ok := tgt.(*ssa.MakeInterface); ok {
+				tgt = mi.X
+			}
+			if !strings.HasSuffix(TypeStr(tgt.Type()), "seq.QPR") {
+				continue
+			}
+			n++
+			al, isAlloc := tgt.(*ssa.Alloc)
+			l := InnermostLoop(call.(ssa.Instruction).Block())
+			if l != nil && (!isAlloc || !l.Blocks[al.Block()]) {
+				fresh = false
+			}
+		}
+	}
+	switch {
+	case n == 0:
+		c.Undecided("pair:decode-fresh:nodecode", fs.Pos(), "FetchSearchResult no longer decodes partial results with json.Unmarshal")
+	case fresh:
+		c.Site(fs.Pos(), "every partial result is decoded into a new QPR")
+	case replaces:
+		c.Site(fs.Pos(), "the decode target is reused; AggregatableSamples.UnmarshalJSON replaces its map on every decode")
+	default:
+		c.Violation("pair:decode-fresh", fs.Pos(), "FetchSearchResult decodes every partial result into the same QPR, and AggregatableSamples.UnmarshalJSON keeps an existing map: bins of the previous fraction stay in it and are merged again, aggregation counts are inflated")
+	}
+}
+
+// C19.13: the list of a request's fractions stays what it was, or nothing depends on it for finding the files.
+func requestFractionsStable(c *Ctx) {
+	ds := c.Fn("(*fracmanager.AsyncSearcher).doSearch")
+	lp := c.Fn("(*fracmanager.AsyncSearcher).loadQPRPaths")
+	if ds == nil || lp == nil {
+		return
+	}
+	mutated := ""
+	for _, call := range CallsIn(ds, nil) {
+		n := CallName(call)
+		if !(strings.HasPrefix(n, "slices.Delete") || strings.HasPrefix(n, "slices.Compact") || strings.HasPrefix(n, "slices.Sort") || strings.HasPrefix(n, "slices.Reverse") || n == "sort.Slice" || n == "sort.Sort") {
+			continue
+		}
+		for _, a := range call.Common().Args {
+			if DerivesFrom(a, func(v ssa.Value) bool { _, f, _, ok := FieldOf(v); return ok && f == "Fractions" }) {
+				mutated = n
+			}
+		}
+	}
+	byList := c.P.Has(lp, func(in ssa.Instruction) bool {
+		v, ok := in.(ssa.Value)
+		if !ok {
+			return false
+		}
+		_, f, _, okF := FieldOf(v)
+		return okF && f == "Fractions"
+	})
+	switch {
+	case mutated == "":
+		c.Site(ds.Pos(), "doSearch leaves the request's fraction list as it is")
+	case !byList:
+		c.Site(ds.Pos(), "doSearch rearranges its fraction list in place (%s); the partial results are found by listing the directory", mutated)
+	default:
+		c.Violation("pair:request-fractions", ds.Pos(), "doSearch rearranges the request's fraction list in place (%s; the slice is shared with the stored request state and persisted with it), and loadQPRPaths looks for the partial results by that list: after a resumed search the files of the fractions that were done before the restart are no longer found", mutated)
+	}
+}
+
+// C18.7: a cleaning pass frees what it was asked to free.
+func cleaningReachesLastGeneration(c *Ctx) {
+	ms := c.Fn("(*cache.Cleaner).markStale")
+	nc := c.Fn("cache.NewCleaner")
+	if ms == nil || nc == nil {
+		return
+	}
+	// the fall-back that rotates and retires the last generation is decided by "not enough freed yet" alone
+	plain := true
+	rot := c.P.FindLifted(ms, CallSel(Callee("(*cache.Cleaner).rotate")))
+	for _, r := range rot {
+		for _, f := range r.Facts() {
+			if DerivesFrom(f.Cond, func(v ssa.Value) bool { return ValueIsField(v, "cache.Cleaner", "maxGenSize") }) {
+				plain = false
+			}
+		}
+	}
+	floor := false
+	for _, s := range InstrsIn(nc, FieldStore("cache.Cleaner", "maxGenSize")) {
+		if DerivesFrom(s.(*ssa.Store).Val, func(v ssa.Value) bool {
+			cl, ok := v.(*ssa.Call)
+			return ok && CallName(cl) == "builtin.max"
+		}) {
+			floor = true
+		}
+	}
+	switch {
+	case len(rot) == 0:
+		c.Undecided("pair:last-generation:norotate", ms.Pos(), "markStale no longer rotates to retire the last generation")
+	case plain:
+		c.Site(ms.Pos(), "markStale retires the last generation whenever the older ones did not free enough")
+	case !floor:
+		c.Site(ms.Pos(), "markStale spares a last generation below maxGenSize; maxGenSize is a fraction of the limit, so such a generation cannot hold the cache over it")
+	default:
+		c.Violation("pair:last-generation", ms.Pos(), "markStale spares a last generation that has not reached maxGenSize, and NewCleaner puts a floor under maxGenSize: with a limit below the floor the only generation is over the limit yet never rotated or retired — the cleaning pass leaves the cache above its limit for good")
+	}
+}
+
+// C18.8: an entry that was thrown out while it was loading is not accounted when it arrives.
+func evictedLoadNotAccounted(c *Ctx) {
+	cl := c.Fn("(*cache.Cache).Cleanup")
+	sv := c.Fn("(*cache.Cache).save")
+	if cl == nil || sv == nil {
+		return
+	}
+	// every entry removed from the map is marked deleted
+	marks := true
+	var dels []ssa.Instruction
+	for _, b := range cl.Blocks {
+		for _, in := range b.Instrs {
+			if call, ok := in.(*ssa.Call); ok && CallName(call) == "builtin.delete" {
+				dels = append(dels, in)
+			}
+		}
+	}
+	stores := InstrsIn(cl, FieldStore("cache.entry", "deleted"))
+	for _, d := range dels {
+		l := InnermostLoop(d.Block())
+		ok := false
+		for _, s := range stores {
+			if !Dominates(d, s) {
+				continue
+			}
+			// on every way on from the removal (each back edge of the loop that follows the delete passes the store)
+			every := true
+			if l != nil {
+				for _, pr := range l.Header.Preds {
+					if l.Blocks[pr] && Dominates(d, pr.Instrs[len(pr.Instrs)-1]) && !Dominates(s, pr.Instrs[len(pr.Instrs)-1]) {
+						every = false
+					}
+				}
+			}
+			if every {
+				ok = true
+			}
+		}
+		if !ok {
+			marks = false
+		}
+	}
+	rehomes := len(InstrsIn(sv, FieldStore("cache.entry", "gen"))) > 0
+	switch {
+	case len(dels) == 0:
+		c.Undecided("pair:evicted-load:nodelete", cl.Pos(), "Cache.Cleanup no longer removes entries from the map")
+	case marks:
+		c.Site(cl.Pos(), "Cleanup marks every entry it removes as deleted (a load that finishes later saves nothing)")
+	case !rehomes:
+		c.Site(cl.Pos(), "Cleanup may leave a loading entry unmarked; save accounts it to the entry's own (stale, dropped) generation")
+	default:
+		c.Violation("pair:evicted-load", cl.Pos(), "Cleanup removes a still loading entry from the map without marking it deleted, and save moves an entry into the current generation before it accounts it: the evicted entry's bytes are added to a live generation although nothing in the map holds them")
+	}
+}
+
+// C15.9: the sealed files are opened after the leftovers of the active fraction are gone, or lazily.
+func sealedOpensAfterCleanup(c *Ctx) {
+	ld := c.Fn("(*fracmanager.loader).load")
+	ns := c.Fn("frac.NewSealed")
+	if ld == nil || ns == nil {
+		return
+	}
+	eager := c.P.HasCall(ns, Callee("(*frac.Sealed).openDocs"))
+	before := true
+	loads := c.P.FindLifted(ld, CallSel(Callee("(*fracmanager.loader).loadSealedFrac")))
+	rms := c.P.FindLifted(ld, CallSel(Callee("fracmanager.removeFile")))
+	for _, l := range loads {
+		for _, r := range rms {
+			if l.Top().Block() == r.Top().Block() || CanFollow(l.Top(), r.Top()) {
+				if InnermostLoop(l.Top().Block()) != nil && !sameIterationAfter(l.Top(), r.Top()) {
+					continue
+				}
+				before = false
+			}
+		}
+	}
+	switch {
+	case !eager:
+		c.Site(ns.Pos(), "NewSealed does not open the docs file (it is opened on first use, after the loader's cleanup)")
+	case before:
+		c.Site(ld.Pos(), "NewSealed opens the docs file at once; the loader removes the active leftovers before it loads the sealed fraction")
+	default:
+		c.Violation("pair:sealed-open-order", ld.Pos(), "NewSealed opens the docs file at once, and the loader removes the unsorted .docs of an interrupted release only after it has loaded the sealed fraction: the fraction holds the unsorted file open, the loader unlinks it, and sorted positions are served from the wrong file")
+	}
+}
+
+// sameIterationAfter: b can run after a within one iteration of their common loop (not only via the back edge).
+func sameIterationAfter(a, b ssa.Instruction) bool {
+	if a.Block() == b.Block() {
+		for _, in := range a.Block().Instrs {
+			if in == a {
+				return true
+			}
+			if in == b {
+				return false
+			}
+		}
+	}
+	l := InnermostLoop(a.Block())
+	seen := map[*ssa.BasicBlock]bool{}
+	work := append([]*ssa.BasicBlock{}, a.Block().Succs...)
+	for len(work) > 0 {
+		x := work[len(work)-1]
+		work = work[:len(work)-1]
+		if seen[x] || (l != nil && x == l.Header) {
+			continue
+		}
+		seen[x] = true
+		if x == b.Block() {
+			return true
+		}
+		work = append(work, x.Succs...)
+	}
+	return false
+}
+
+// C16.11: the hot store's refusal reaches the proxy in a form the proxy recognises.
+func oldDataRefusalRecognised(c *Ctx) {
+	ds := c.Fn("(*storeapi.GrpcV1).doSearch")
+	ss := c.Fn("(*proxy/search.Ingestor).searchShard")
+	if ds == nil || ss == nil {
+		return
+	}
+	// store side: under earlierThanOldestFrac the answer is a response (nil error) carrying the code
+	byCode := false
+	for _, rp := range ReturnPaths(ds, ErrorResultIndex(ds)) {
+		under := false
+		for _, f := range rp.Facts {
+			if cl, ok := f.Cond.(ssa.CallInstruction); ok && f.Val && strings.HasSuffix(CallName(cl), "earlierThanOldestFrac") {
+				under = true
+			}
+		}
+		if under && IsNilConst(rp.Val) && !IsNilConst(RetOperand(rp.Ret, 0)) {
+			byCode = true
+		}
+	}
+	want := constString(c.P.TypesPkg("consts"), "ErrIngestorQueryWantsOldData")
+	_ = want
+	// proxy side: the text of a replica's error is compared with the refusal's text
+	byText := false
+	for _, f := range WithClosures(ss) {
+		for _, b := range f.Blocks {
+			for _, in := range b.Instrs {
+				bo, ok := in.(*ssa.BinOp)
+				if !ok || bo.Op != token.EQL {
+					continue
+				}
+				isRefusalText := func(v ssa.Value) bool {
+					return DerivesFrom(v, func(x ssa.Value) bool {
+						u, ok := x.(*ssa.UnOp)
+						if !ok {
+							return false
+						}
+						g, ok := u.X.(*ssa.Global)
+						return ok && g.Name() == "ErrIngestorQueryWantsOldData"
+					})
+				}
+				if isRefusalText(bo.X) || isRefusalText(bo.Y) {
+					byText = true
+				}
+			}
+		}
+	}
+	switch {
+	case byCode:
+		c.Site(ds.Pos(), "a hot store refuses a range it has dropped with a response code")
+	case byText:
+		c.Site(ss.Pos(), "a hot store refuses with an RPC error; searchShard recognises the refusal by its text")
+	default:
+		c.Violation("pair:old-data-refusal", ds.Pos(), "a hot store refuses a range it has dropped with an RPC error, and the proxy no longer recognises that refusal by its text: it is taken for an ordinary replica failure, the long-term stores are never asked, and the search fails or comes back partial")
+	}
+}
+
+// C13.11: the blocks that may hold an exact value are all looked at, or they are selected by the whole value.
+func exactValueBlocksComplete(c *Ctx) {
+	se := c.Fn("(frac/token.Table).SelectEntries")
+	gt := c.Fn("(*frac.sealedTokenIndex).GetTIDsByTokenExpr")
+	if se == nil || gt == nil {
+		return
+	}
+	var hint *ssa.Parameter
+	for _, p := range se.Params {
+		if ParamName(p) == "hint" {
+			hint = p
+		}
+	}
+	// whole: every comparison of SelectEntries that involves the hint uses the parameter itself, not a shortened copy
+	whole := hint != nil
+	// (a parameter that closures capture lives in a cell: its uses are loads, so "is the hint" is a derivation question)
+	isHint := func(v ssa.Value) bool {
+		return hint != nil && DerivesFrom(v, func(x ssa.Value) bool { return x == ssa.Value(hint) })
+	}
+	for _, f := range WithClosures(se) {
+		for _, call := range CallsIn(f, Callee("frac/token.cut")) {
+			if isHint(Arg(call, 0)) {
+				whole = false
+			}
+		}
+		for _, b := range f.Blocks {
+			for _, in := range b.Instrs {
+				if sl, ok := in.(*ssa.Slice); ok && sl.High != nil && isHint(sl.X) {
+					if _, isStr := sl.X.Type().Underlying().(*types.Basic); isStr {
+						whole = false
+					}
+				}
+			}
+		}
+	}
+	// all: what SelectEntries returned goes to the provider as it is
+	all := true
+	for _, np := range CallsIn(gt, Callee("frac/token.NewProvider")) {
+		for _, a := range np.Common().Args {
+			if sl, ok := a.(*ssa.Slice); ok && (sl.High != nil || sl.Low != nil) {
+				all = false
+			}
+			if phi, ok := a.(*ssa.Phi); ok {
+				for _, e := range phi.Edges {
+					if sl, ok := e.(*ssa.Slice); ok && (sl.High != nil || sl.Low != nil) {
+						all = false
+					}
+				}
+			}
+		}
+	}
+	switch {
+	case all:
+		c.Site(gt.Pos(), "every selected dictionary block is searched")
+	case whole:
+		c.Site(gt.Pos(), "only the first selected block is searched for an exact value; blocks are selected by the whole value")
+	default:
+		c.Violation("pair:exact-value-blocks", gt.Pos(), "only a part of the selected dictionary blocks is searched, and SelectEntries selects by a shortened hint: an exact value that shares its first bytes with the tokens of an earlier block is looked for in that block and not found")
+	}
+}
+
+// C12.10: the pipe parser ends at the end of the input.
+func pipesEndAtEndOfInput(c *Ctx) {
+	pp := c.Fn("parser.parsePipes")
+	fl := c.Fn("parser.parseFieldList")
+	if pp == nil || fl == nil {
+		return
+	}
+	isEnd := func(f Fact) bool {
+		cl, ok := f.Cond.(ssa.CallInstruction)
+		return ok && f.Val && strings.HasSuffix(CallName(cl), "lexer).IsEnd")
+	}
+	// parsePipes succeeds only when the lexer is at its end
+	atEnd := true
+	for _, rp := range ReturnPaths(pp, ErrorResultIndex(pp)) {
+		if DefinitelyNonNil(rp.Val, rp.Facts) {
+			continue
+		}
+		ok := false
+		for _, f := range rp.Facts {
+			if isEnd(f) {
+				ok = true
+			}
+		}
+		if !ok {
+			atEnd = false
+		}
+	}
+	// parseFieldList stops only in front of a pipe or at the end: its loop test is the lexer's keyword test including ""
+	stops := false
+	for _, l := range Loops(fl) {
+		if iff, ok := l.Header.Instrs[len(l.Header.Instrs)-1].(*ssa.If); ok {
+			if cl, isCall := iff.Cond.(*ssa.Call); isCall && strings.HasSuffix(CallName(cl), "lexer).IsKeywords") {
+				stops = true
+			}
+		}
+	}
+	switch {
+	case atEnd:
+		c.Site(pp.Pos(), "parsePipes succeeds only at the end of the input")
+	case stops:
+		c.Site(pp.Pos(), "parsePipes stops at the first token that is not a pipe; a field list ends only in front of a pipe or at the end of the input")
+	default:
+		c.Violation("pair:pipes-end", pp.Pos(), "parsePipes can succeed with input left, and parseFieldList can stop at a token that is neither a pipe nor the end (an empty quoted string): ParseSeqQL then reaches its `lexer is not end` panic, which nothing on the store's search path recovers")
+	}
+}
+
+// C14.11: a fraction list that is cut by its time borders is in sorted order when it is cut.
+func filteredListKeepsOrder(c *Ctx) {
+	fr := c.Fn("(fracmanager.List).FilterInRange")
+	if fr == nil {
+		return
+	}
+	isList := func(t types.Type) bool {
+		sl, ok := t.Underlying().(*types.Slice)
+		return ok && strings.HasSuffix(TypeStr(sl.Elem()), "frac.Fraction")
+	}
+	keeps := true
+	for _, b := range fr.Blocks {
+		for _, in := range b.Instrs {
+			if st, ok := in.(*ssa.Store); ok {
+				if ia, isIA := st.Addr.(*ssa.IndexAddr); isIA && isList(ia.X.Type()) {
+					// an element moved to another position
+					if _, fromElem := st.Val.(*ssa.UnOp); fromElem {
+						keeps = false
+					}
+				}
+			}
+		}
+	}
+	// who cuts a filtered list by borders without sorting it again
+	unsortedUse := ""
+	cut := Callee("fracmanager.calcEnsuredIDsCount")
+	for _, fn := range c.P.FuncsInPkg("fracmanager") {
+		for _, use := range CallsIn(fn, cut) {
+			for _, flt := range CallsIn(fn, Callee("(fracmanager.List).FilterInRange")) {
+				if !CanFollow(flt.(ssa.Instruction), use.(ssa.Instruction)) {
+					continue
+				}
+				sorted := false
+				for _, srt := range CallsIn(fn, Callee("(fracmanager.List).Sort")) {
+					if Dominates(flt.(ssa.Instruction), srt.(ssa.Instruction)) && Dominates(srt.(ssa.Instruction), use.(ssa.Instruction)) {
+						sorted = true
+					}
+				}
+				if !sorted {
+					unsortedUse = FuncName(fn)
+				}
+			}
+		}
+	}
+	switch {
+	case keeps:
+		c.Site(fr.Pos(), "FilterInRange keeps the order of the list")
+	case unsortedUse == "":
+		c.Site(fr.Pos(), "FilterInRange does not keep the order; every list that is cut by its borders is sorted after it was filtered")
+	default:
+		c.Violation("pair:filtered-order", fr.Pos(), "FilterInRange moves elements (the order of the list is lost), and %s filters the remaining fractions and then cuts by the border of the first one without sorting again: ids are declared final against the wrong fraction and newer documents are dropped from the result", unsortedUse)
+	}
+}
+
+// C04.13 (= C14.12): the id list a sealed fraction is asked for is in full order, or findLIDs does not rely on it.
+func findLIDsWindowJustified(c *Ctx) {
+	fl := c.Fn("(*frac.sealedFetchIndex).findLIDs")
+	so := c.Fn("fracmanager.sortIDs")
+	if fl == nil || so == nil {
+		return
+	}
+	// full order: sort.Sort/Stable on the id list (its Less is the (MID, RID) order), or a comparator that looks at RID
+	full := false
+	for _, call := range CallsIn(so, nil) {
+		switch CallName(call) {
+		case "sort.Sort", "sort.Stable":
+			full = true
+		case "sort.Slice", "sort.SliceStable", "slices.SortFunc", "slices.SortStableFunc":
+			for _, a := range call.Common().Args {
+				for _, o := range c.P.Origins(a, nil, 2, nil) {
+					if mc, ok := o.Val.(*ssa.MakeClosure); ok {
+						if cf, _ := mc.Fn.(*ssa.Function); cf != nil {
+							readsRID := c.P.Has(cf, FieldLoad("seq.ID", "RID")) || c.P.HasCall(cf, Callee("seq.Less", "seq.LessOrEqual"))
+							if readsRID {
+								full = true
+							}
+						}
+					}
+				}
+			}
+		}
+	}
+	// per step: the lower end of the window is reset under a comparison of the id with its predecessor, and the upper end does not move
+	perStep := false
+	var ids *ssa.Parameter
+	for _, p := range fl.Params {
+		if _, isSlice := p.Type().Underlying().(*types.Slice); isSlice {
+			ids = p
+		}
+	}
+	adjacent := false
+	for _, call := range CallsIn(fl, Callee("seq.Less", "seq.LessOrEqual")) {
+		if !InLoop(call.(ssa.Instruction).Block()) || ids == nil {
+			continue
+		}
+		elem := func(v ssa.Value) (ssa.Value, bool) {
+			var idx ssa.Value
+			found := DerivesFrom(v, func(x ssa.Value) bool {
+				if ia, ok := x.(*ssa.IndexAddr); ok && ia.X == ssa.Value(ids) && idx == nil {
+					idx = ia.Index
+					return true
+				}
+				return false
+			})
+			return idx, found
+		}
+		i0, ok0 := elem(Arg(call, 0))
+		i1, ok1 := elem(Arg(call, 1))
+		if !ok0 || !ok1 {
+			continue
+		}
+		// one index is the other minus one
+		for _, pr := range [][2]ssa.Value{{i0, i1}, {i1, i0}} {
+			if bo, ok := pr[1].(*ssa.BinOp); ok && bo.Op == token.SUB && SameValue(bo.X, pr[0]) {
+				if k, isK := ConstInt(bo.Y); isK && k == 1 {
+					adjacent = true
+				}
+			}
+		}
+	}
+	upperFixed := true
+	for _, bs := range CallsIn(fl, Callee("util.BinSearchInRange")) {
+		hi := Arg(bs, 1)
+		if phi, ok := hi.(*ssa.Phi); ok && InLoop(phi.Block()) {
+			upperFixed = false
+		}
+	}
+	perStep = adjacent && upperFixed
+	switch {
+	case perStep:
+		c.Site(fl.Pos(), "findLIDs re-justifies its search window at every id by comparing it with its predecessor; the upper end never moves")
+	case full:
+		c.Site(fl.Pos(), "findLIDs relies on the order of the list; sortIDs delivers the ids in full (MID, RID) order")
+	default:
+		c.Violation("pair:findLIDs-order", fl.Pos(), "findLIDs narrows its search window on the strength of the list's overall order, and sortIDs orders the ids by MID only: ids that share a millisecond arrive in arbitrary RID order, the narrowed window skips stored documents, and they come back as not found from a sealed fraction")
+	}
+}
+
+// C07.11: a sentinel error is recognised however it is wrapped.
+func sentinelRecognised(c *Ctx) {
+	n := 0
+	for _, fn := range c.P.FuncsInPkg("fracmanager") {
+		for _, call := range CallsIn(fn, Callee("errors.Is")) {
+			isSentinel := func(v ssa.Value) *ssa.Global {
+				u, ok := v.(*ssa.UnOp)
+				if !ok || u.Op != token.MUL {
+					return nil
+				}
+				g, _ := u.X.(*ssa.Global)
+				return g
+			}
+			g0, g1 := isSentinel(Arg(call, 0)), isSentinel(Arg(call, 1))
+			n++
+			if g0 == nil || g1 != nil {
+				c.Site(call.Pos(), "%s: errors.Is(err, sentinel)", FuncName(fn))
+				continue
+			}
+			// errors.Is(sentinel, err): true only if err IS the sentinel. Fine as long as the producer hands the sentinel itself.
+			wrapped := ""
+			DerivesFrom(Arg(call, 1), func(v ssa.Value) bool {
+				cl, ok := v.(*ssa.Call)
+				if !ok {
+					return false
+				}
+				cands := []*ssa.Function{StaticCallee(cl)}
+				if cl.Call.IsInvoke() {
+					cands = nil
+					for _, f := range c.P.Funcs {
+						if f.Name() == cl.Call.Method.Name() && f.Signature.Recv() != nil && c.P.InRepo(f) {
+							cands = append(cands, f)
+						}
+					}
+				}
+				for _, h := range cands {
+					if h == nil || h.Blocks == nil || ErrorResultIndex(h) < 0 {
+						continue
+					}
+					for _, rp := range ReturnPaths(h, ErrorResultIndex(h)) {
+						if wc, isCall := rp.Val.(*ssa.Call); isCall {
+							for _, a := range wc.Call.Args {
+								if DerivesFrom(a, func(x ssa.Value) bool { return isSentinel(x) == g0 }) {
+									wrapped = FuncName(h)
+								}
+							}
+						}
+					}
+				}
+				return false
+			})
+			if wrapped == "" {
+				c.Site(call.Pos(), "%s: errors.Is has the sentinel first; every producer returns the sentinel itself", FuncName(fn))
+			} else {
+				c.Violation("pair:sentinel:"+FuncName(fn)+":"+g0.Name(), call.Pos(), "%s tests errors.Is(%s, err) — the sentinel first, which matches only the bare sentinel — and %s returns that sentinel wrapped: the case is not recognised and falls through to the fatal sink (sealing a fraction that retention has just deleted stops the store)", FuncName(fn), g0.Name(), wrapped)
+			}
+		}
+	}
+	if n == 0 {
+		c.Site(token.NoPos, "package fracmanager does not use errors.Is")
+	}
+}
